@@ -544,11 +544,12 @@ class Driver:
 
     def ev_pull(self, ev):
         nap = self.case.get("sleep_before_first_pull")
-        if nap and not getattr(self, "napped", False) and not self.replay:
-            # let the dispatched batches get old before anybody waits for them: `timeout` bounds the WAIT of the caller,
-            # not the age of a batch
-            self.napped = True
-            time.sleep(nap)
+        self.n_pulls = getattr(self, "n_pulls", 0) + 1
+        naps = self.case.get("nap_before_pulls") or ([1] if nap else [])
+        if self.n_pulls in naps and not self.replay:
+            # let the dispatched batches (or an earlier, served wait) get old before the caller waits again: `timeout`
+            # bounds ONE wait of the caller, not the age of a batch nor the sum of its waits
+            time.sleep(nap or 2.4)
         self.pull_t0 = time.time()
         self._send(("pull",))
         self.pending_pull = True
